@@ -6,12 +6,15 @@ from rules import atoms as at
 def run(ctx):
     ctx.clause = ("each net counter is num - filtered of one container and its suppressed twin, each section skips "
                   "through the predicate that looks up that very suppressed set, and the summary is emitted before "
-                  "any section and is not gated by --stat")
-    ctx.rules = ["R-NETPAIR", "R-SECTION", "R-STATFIRST", "R-CHGKIND/b"]
+                  "any section and is not gated by --stat; the counters of filtered-out changes are computed only after every "
+                  "category-writing pass has run")
+    ctx.rules = ["R-NETPAIR", "R-SECTION", "R-STATFIRST", "R-CHGKIND/b", "R-CATORDER", "R-OPTGATE"]
     P = ctx.program(at.UNITS)
     sa.check_netpair(ctx, P)
     sa.check_section(ctx, P)
     sa.check_statfirst(ctx, P)
     sa.check_chgkind_b(ctx, P)
+    sa.check_catorder(ctx, P)
+    sa.check_optgate(ctx, P)
     ctx.assume("arithmetic on the actual counts is runtime; it follows when count and listing provably use the same "
                "container and filter")
